@@ -4,7 +4,9 @@
   commits, rotation, truncation, nested crashes — is carried by the crash suite's ghost-state monitors)
 -/
 import RaftWal.Generated.WalLogic
+import RaftWal.Proofs.WalDecide
 import RaftWal.Proofs.SegmentTorn
+import RaftWal.Proofs.SegmentChainCor
 import RaftWal.Proofs.CrashCorollaries
 namespace RaftWal.C01
 open RaftWal
@@ -32,6 +34,15 @@ theorem acked_survive_torn_write (info : SegInfo) (bs : List (List Bytes)) (b : 
   intro img
   obtain ⟨wr, img', h, hc⟩ := recover_torn_atomic_partial info bs b hne hwf w file hrun w' file' happ mask
   exact ⟨wr, img', h, hc.elim (fun h => .inl h.1) (fun h => .inr h.1)⟩
+
+/-- **acknowledged batches survive every chain of tears, recoveries and restarts on a segment file** (byte level,
+    any number of cycles; `ChainEv`, `chainRun`, `chainSpec` are introduced in Props/C02): each batch whose append
+    returned is in the file the last recovery leaves, readable at its index (`ChainResult.readable`), and nothing the file
+    holds was not submitted. The only alternative is an explicit CRC-32C collision of a torn image. -/
+theorem acked_survive_any_chain (info : SegInfo) (evs : List ChainEv) (hwf : ChainWF info evs) :
+    ChainCollision info evs ∨ ∃ w file bs, ChainResult info evs w file bs ∧ (∀ b, ChainEv.append b ∈ evs → b ∈ bs)
+      ∧ (∀ b ∈ bs, b ∈ chainBatches evs) :=
+  RaftWal.chain_acked_survive info evs hwf
 
 /-- the writer makes an entry visible (`commitIdx`) only in the same step that records the fsync'd batch:
     a fault-free append sets the commit index to the last index of the batch it just flushed and synced -/
@@ -82,8 +93,10 @@ theorem protocol_init : ∃ d, Crash.openResult Crash.emptyDisk = some d ∧ Cra
 /-- which segments a truncation keeps, as wal.go decides it (read from the source on every run): a tail truncation keeps
     every segment whose first index is at or below the new last index; a head truncation keeps the tail if it holds the new
     first index and a sealed segment if its last index is at or above it -/
-theorem truncation_scans_from_source :
-    Generated.truncateTailStops = ["seg.BaseIndex <= newMax"] ∧
-    Generated.truncateHeadStops = ["newState.lastIndex() >= newMin", "seg.MaxIndex >= newMin"] := by decide
+theorem truncation_scans_from_source (s : SegS) (stateLast newMin newMax : Nat) :
+    (((¬ s.sealed ∧ stateLast ≥ newMin) ∨ (s.sealed ∧ s.max ≥ newMin)) ↔
+        Generated.truncateHeadStopsAt s.sealed s.base s.min s.max stateLast newMin = true) ∧
+    ((s.base ≤ newMax) ↔ Generated.truncateTailKeeps s.base s.min s.max newMax = true) :=
+  ⟨RaftWal.truncateHead_stop_eq_source s stateLast newMin, RaftWal.truncateTail_keep_eq_source s newMax⟩
 
 end RaftWal.C01
